@@ -24,6 +24,13 @@ void verif_witness(); // last statement of every harness: its twin assert(false)
 extern "C" int _xbt_log_cat_init(xbt_log_category_t, e_xbt_log_priority_t) { return 0; }
 extern "C" void _xbt_log_event_log(xbt_log_event_t, const char*, ...) {}
 extern "C" void xbt_backtrace_display_current() {}
+#include "xbt/asserts.h"
+extern "C" void abort() noexcept;
+extern "C" void xbt_abort() // xbt_die() ends here
+{
+  abort();
+  __builtin_unreachable();
+}
 #ifndef VERIF_OWN_ABORT
 extern "C" void abort() noexcept
 {
